@@ -18,8 +18,9 @@ var profile = gen.Profile{
 	MinSteps: 4, MaxSteps: 26, Limits: []int{1, 2, 3, 4},
 	PNote: 15, PGate: 85, PInvalid: 4, PUnknown: 10, PBatch: 55, MaxBatch: 6,
 	PCancel: 12, PBurst: 35, PObey: 30, Builtins: true, Pins: true,
-	Outcomes: []string{"ok", "ok", "err:-32000", "ctxerr"},
-	Chans:    []string{"direct", "pipe"},
+	Outcomes:      []string{"ok", "ok", "err:-32000", "ctxerr"},
+	Chans:         []string{"direct", "pipe"},
+	PBaseDeadline: 0,
 }
 
 func genCase(t *rapid.T) sim.Scenario { return gen.ServerScenario(t, profile) }
@@ -28,7 +29,17 @@ func run(t *testing.T, sc sim.Scenario) engine.Verdict {
 	return oracle.RunServer(t, sc, []string{"C06/"}, func(f oracle.Facts) bool { return f.MoreThanSlots })
 }
 
+func genDeadline(t *rapid.T) sim.Scenario { return gen.DeadlineScenario(t) }
+
+func runDeadline(t *testing.T, sc sim.Scenario) engine.Verdict {
+	v := oracle.RunServer(t, sc, []string{"C06/", "C01/reply-missing", "C01/handler-not-run", "C01/reply-mismatch", "C03/"}, func(f oracle.Facts) bool { return true })
+	v.Labels = append(v.Labels, "base-deadline")
+	return v
+}
+
 var parts = []engine.AnyPart{
+	engine.Part[sim.Scenario]{Name: "deadline", Run: runDeadline, Gen: genDeadline,
+		Rule: "structured scenarios on a server whose request contexts carry a 50ms deadline (NewContext): all slots filled with parked calls, 1-4 further records of calls and notifications waiting for a slot or behind the barrier, the fake clock advanced by 200ms, fresh requests, slots given back in any order; requests whose context ended while waiting must be answered -32096 (calls) or dropped (notifications) without running and must not hold back later requests; every case is non-trivial by construction; distinct = hash of the scenario"},
 	engine.Part[sim.Scenario]{Name: "scenarios", Run: run, Gen: genCase,
 		Rule: "rapid-generated scripts with Concurrency 1-4, batches larger and smaller than the limit made mostly of parking handlers, rpc.serverInfo calls mixed in, generated release and CancelRequest orders, hook delays on the invoke sites; a counter at handler entry/exit must never exceed the limit, at every quiescent point running == min(limit, dispatched and unfinished), a built-in call is not answered while all slots are parked, a call cancelled while waiting for a slot is answered -32097 and never enters; non-trivial = more dispatched parking requests than slots at some quiescent point; distinct = hash of the scenario"},
 }
